@@ -6,11 +6,11 @@ from . import hist
 class C04(HistProp):
     id = 'C04'
     module = 'Cbor.Props.C04'
-    theorems = ['Props.C04.C04_step', 'Props.C04.C04_run', 'Props.C04.C04_run_from_init', 'Props.C04.C04_no_dangling', 'Props.C04.C04_all_released',
+    theorems = ['Props.C04.C04_step', 'Props.C04.C04_run', 'Props.C04.C04_run_from_init', 'Props.C04.C04_no_dangling', 'Props.C04.C04_all_released', 'Props.C04.C04_pos_run', 'Props.C04.C04_nothing_left',
                 'Heap.decref_counts', 'Heap.copy_counts_all', 'Heap.load_counts', 'Heap.arrReplace_counts', 'Heap.mapAdd_counts', 'Heap.tagSet_counts']
     trusted_base = BASE_TRUST + HEAP_TRUST + [
         'C04_run covers every operation of the history language incl. cbor_copy (all clean-up paths, any allocator oracle) and cbor_load (tree laid out by Heap.build); '
-        'C04_all_released assumes acyclic containers (a client obligation) and that no live item has a zero count (observed, not yet an invariant theorem)',
+        'C04_nothing_left assumes acyclic containers (a client obligation in the property); positivity of live counts is an invariant theorem (C04_pos_run)',
     ]
     rule = ('histories over the public API generated with a shadow ownership graph: new/build of every type, push / push-with-move / set / replace / get, '
             'map add, add chunk, tag set (incl. re-tagging) / get / build, copy, incref, decref, shared sub-items in several containers; every history ends '
